@@ -19,12 +19,12 @@
    Scope clause (the property's "bounds whose text begins with a comparator character or
    contains the ecosystem's separator characters are out of scope"): [bound_in_scope a] = a is
    non-empty, has no whitespace and does not start with one of < > = ! ~ ^; ecosystems with more
-   separators use their own boolean predicate, visible in each statement (debian, rpm, cran: no
-   comma; gentoo: no comma; cargo [bound_ok]; composer [in_scope]: also no "|", "@", wildcard
+   separators use their own boolean predicate, visible in each statement (debian, rpm, cran, gem:
+   no comma; gentoo: no comma; cargo [bound_ok]; composer [in_scope]: also no "|", "@", wildcard
    part; conan [bound_scope]: also lower case, no "|"; hex [scope_b]: not the word "and"; npm
    [bound_scope]: no x-range part, none of @#$%&!()|; nuget [bound_scope]: no brackets; pypi
    [in_scope], and no trailing ".*" (that is the prefix match of C05); semver [bound_scope]).
-   Operator lists: six spellings >= <= != > < = for alpine, cargo, conan, cran, gentoo, golang,
+   Operator lists: six spellings >= <= != > < = for alpine, cargo, conan, cran, gem, gentoo, golang,
    nuget, rpm, semver; debian adds >> and <<; composer adds == and <>; pypi has == != <= >= < >
    (and ~= ===, see C05); five spellings (no "!=") for alpm, apache, github, mattermost, hex and npm (npm's
    comparator set is node-semver's).
@@ -37,14 +37,16 @@
                model's own version layer).
      maven     has no comparator syntax (brackets only, see C05.v); only the bare version
                (exact match) is stated here.
+     gem       an unparsable bound does not make the range invalid: it is accepted and contains
+               nothing (C02_gem_invalid_bound_accepted), as for alpine (C02_alpine_bad_bound).
      rpm       C02_rpm_and_parsed is the typed form (any version type V) written with the model;
                C02_rpm_and the string-level form.
    AND / OR coverage: AND for every ecosystem with a comparator syntax; OR ("||") for npm, composer
    and conan, the three ecosystems that have it.  The AND statements are either for comparator
-   lists of any length (apache, alpine, alpm, github, mattermost, golang, cran, debian, rpm,
-   gentoo, semver, nuget, conan groups) or compositional for two accepted parts (cargo, npm,
+   lists of any length (apache, alpine, alpm, github, mattermost, golang, cran, debian, gem,
+   rpm, gentoo, semver, nuget, conan groups) or compositional for two accepted parts (cargo, npm,
    pypi, hex, composer, conan): the joined text contains exactly what both parts contain.
-   No pair is left unproved.  gem: added when its model is merged. *)
+   No pair is left unproved; all 20 ecosystems are covered. *)
 
 From Verif.Base Require Import Bytes BytesFacts GoNum Ord.
 From Verif.Eco Require Import RangeCore RangeCoreFacts Iface VLayer VLayerFacts.
@@ -55,7 +57,8 @@ From Verif.Eco.Cargo Require Version VersionFacts Range RangeFacts Entry.
 From Verif.Eco.Composer Require Version VersionFacts Range RangeFacts Entry.
 From Verif.Eco.Conan Require Version VersionFacts Range RangeFacts Entry.
 From Verif.Eco.Cran Require Version VersionFacts Range Entry.
-From Verif.Eco.Debian Require Version VersionFacts Range RangeFacts Entry SpecFacts.
+From Verif.Eco.Debian Require Version VersionFacts Range RangeFacts Entry.
+From Verif.Eco.Gem Require Version VersionFacts Range RangeFacts Entry.
 From Verif.Eco.Gentoo Require Version VersionFacts Range RangeFacts Entry.
 From Verif.Eco.Github Require Version VersionFacts Range RangeFacts Entry.
 From Verif.Eco.Golang Require Version VersionFacts Range RangeFacts Entry.
@@ -66,8 +69,8 @@ From Verif.Eco.Npm Require Version VersionFacts Range RangeFacts Entry.
 From Verif.Eco.Nuget Require Version VersionFacts Range RangeFacts Entry.
 From Verif.Eco.Pypi Require Version VersionFacts Range RangeFacts Entry.
 From Verif.Eco.Rpm Require Version VersionFacts Range RangeFacts Entry.
-From Verif.Eco.Semver Require Version VersionFacts Range RangeFacts Entry SpecFacts.
-From Verif.Properties.Support Require SimpleRops C02Lists ComposerLists.
+From Verif.Eco.Semver Require Version VersionFacts Range RangeFacts Entry.
+From Verif.Properties.Support Require SimpleRops C02Lists ComposerLists GemSupport.
 From Verif.Gen Require Operators.
 From Verif.Eco.Cargo Require NumFacts.
 
@@ -183,7 +186,8 @@ Theorem C02_cargo :
   In op Cargo.Range.cargo_ops ->
   vok a = true ->
   Cargo.RangeFacts.bound_ok a = true ->
-  vok v = true -> Cargo.Range.r_contains vok vcmp (op ++ a) v = Some (sat (sem6 op) (vcmp v a)).
+  vok v = true ->
+  Cargo.Range.r_contains vok vcmp (op ++ a) v = Some (sat (sem6 op) (vcmp v a)).
 Proof. exact Cargo.RangeFacts.C02_comparator. Qed.
 Print Assumptions C02_cargo.
 
@@ -447,6 +451,44 @@ Theorem C02_debian_sem_table :
   Debian.Range.debian_sem $"<=" = CLe.
 Proof. exact Debian.RangeFacts.debian_sem_table. Qed.
 Print Assumptions C02_debian_sem_table.
+
+(* gem (AND: comma; bounds are not validated when the range is parsed) *)
+
+Theorem C02_gem :
+  forall (vok : bytes -> bool) (vcmp : bytes -> bytes -> comparison) (op a v : bytes),
+  In op Gem.Range.gem_ops ->
+  Gem.RangeFacts.bound_scope a = true ->
+  vok a = true ->
+  vok v = true -> Gem.Range.r_contains vok vcmp (op ++ a) v = Some (sat (sem6 op) (vcmp v a)).
+Proof. exact Gem.RangeFacts.gem_c02. Qed.
+Print Assumptions C02_gem.
+
+Theorem C02_gem_bare :
+  forall (vok : bytes -> bool) (vcmp : bytes -> bytes -> comparison) (a v : bytes),
+  Gem.RangeFacts.bound_scope a = true ->
+  vok a = true -> vok v = true -> Gem.Range.r_contains vok vcmp a v = Some (sat CEq (vcmp v a)).
+Proof. exact Gem.RangeFacts.gem_c02_bare. Qed.
+Print Assumptions C02_gem_bare.
+
+Theorem C02_gem_and :
+  forall (vok : bytes -> bool) (vcmp : bytes -> bytes -> comparison) (cs : list constraint) (v : bytes),
+  cs <> [] ->
+  Forall (fun c : bytes * bytes =>
+     (In (fst c) Gem.Range.gem_ops /\ bound_in_scope (snd c) /\ vok (snd c) = true) /\
+     negb (contains_c ","%char (snd c)) = true) cs ->
+  vok v = true ->
+  r_contains Gem.Entry.r vok vcmp (join $"," (map ctext cs)) v =   (* ctext c = fst c ++ snd c *)
+  Some (forallb (fun c : bytes * bytes => sat (sem6 (fst c)) (vcmp v (snd c))) cs).
+Proof. exact GemSupport.gem_c02_and. Qed.
+Print Assumptions C02_gem_and.
+
+Theorem C02_gem_invalid_bound_accepted :
+  Gem.Range.r_show Gem.RangeFacts.self_ok $"!= x" =
+  Some $"!= x" /\
+  Gem.Range.r_contains Gem.RangeFacts.self_ok Gem.RangeFacts.self_cmp
+    $"!= x" $"1" = Some false.
+Proof. exact Gem.RangeFacts.finding_invalid_bound_accepted. Qed.
+Print Assumptions C02_gem_invalid_bound_accepted.
 
 (* gentoo (AND: commas and whitespace) *)
 
@@ -889,7 +931,7 @@ Theorem C02_semver_and :
 Proof. exact Semver.RangeFacts.c02_list. Qed.
 Print Assumptions C02_semver_and.
 
-(* TODO, not proved: nothing for the 19 merged ecosystems (maven has no comparator syntax).
+(* TODO, not proved: nothing for the 20 ecosystems (maven has no comparator syntax).
    Not stated in full generality: AND-lists of more than two parts for cargo, npm, pypi, hex and
    composer (the two-part theorems compose, each part being any accepted range text of the stated
-   shape).  gem: model not merged. *)
+   shape). *)
